@@ -147,7 +147,7 @@ _ITEM_RE = re.compile(
 )
 
 
-def _impl_name(header):
+def _impl_name(header, keep_generics=False):
     """Name an impl by `Type` or `Trait for Type` with generics stripped."""
     h = header.strip()
     h = re.sub(r"^impl\s*", "", h)
@@ -176,6 +176,8 @@ def _impl_name(header):
                 out.append(ch)
         return "".join(out)
 
+    if keep_generics:
+        return re.sub(r"\s+", " ", h).strip()
     h = strip_generics(h)
     h = re.sub(r"\s+", " ", h).strip()
     return h
@@ -241,6 +243,7 @@ def items_in(src, msk, lo, hi):
             name = nm.group(1) if nm else "?"
         else:
             name = _impl_name(src[kwpos:(body_open if body_open >= 0 else end)])
+            full_name = _impl_name(src[kwpos:(body_open if body_open >= 0 else end)], True)
         # attributes / doc comments preceding
         a = m.start()
         while True:
@@ -258,6 +261,8 @@ def items_in(src, msk, lo, hi):
         else:
             attrs_start = m.start()
         res.append(Item(kw, name, m.start(), None, body_open, body_close, attrs_start))
+        if kw == "impl":
+            res[-1].full_name = full_name  # with generic arguments kept: tells `impl From<A> for T` from `impl From<B> for T`
         i = body_close + 1
         pos = body_close + 1
     return res
@@ -285,7 +290,8 @@ class Source:
             sel = []
             for lo, hi in ranges:
                 cands = items_in(self.src, self.msk, lo, hi)
-                sel += [c for c in cands if (kind is None or c.kind == kind) and c.name == name]
+                sel += [c for c in cands if (kind is None or c.kind == kind) and
+                        (c.name == name or ("<" in name and getattr(c, "full_name", None) == name))]
             if last:
                 found = sel
             else:
